@@ -6,15 +6,15 @@ Local Open Scope Z_scope.
 (* with a union-returning Merge, the payload finally sent carries every update queued *)
 Lemma union_sender_complete : forall ps p0 k,
   nonneg p0 ->
-  match fold_left sender_send_union ps (Some p0) with
+  match fold_left sender_send ps (Some p0) with
   | Some out => tadd out k = tmax_add ps k (tadd p0 k) /\ tdel out k = tmax_del ps k (tdel p0 k) /\ nonneg out
   | None => False
   end.
 Proof.
-  induction ps as [|p ps IH]; intros p0 k Hn; cbn [fold_left sender_send_union].
+  induction ps as [|p ps IH]; intros p0 k Hn; cbn [fold_left sender_send].
   - split; [reflexivity|split; [reflexivity|exact Hn]].
   - specialize (IH (lww_merge p0 p) k (merge_nonneg p0 p Hn)).
-    destruct (fold_left sender_send_union ps (Some (lww_merge p0 p))) as [out|]; [|exact IH].
+    destruct (fold_left sender_send ps (Some (lww_merge p0 p))) as [out|]; [|exact IH].
     destruct IH as (A & B & C). destruct (merge_times p0 p k Hn) as [E1 E2].
     unfold tmax_add, tmax_del in *. cbn [fold_left]. rewrite A, B, E1, E2. split; [reflexivity|split; [reflexivity|exact C]].
 Qed.
